@@ -199,6 +199,10 @@ class DilationWorld:
         if self.lose_left > 0:
             for link in self.net.links:
                 if self._losable(link):
+                    if self.cfg.get("lose_both"):
+                        if not link.broken and not all(e.transport.closed for e in link.ends):
+                            evs.append(("lose", link.idx, 2))
+                        continue
                     for side in (0, 1):
                         if not link.ends[side].transport.closed and not link.broken:
                             evs.append(("lose", link.idx, side))
@@ -227,7 +231,8 @@ class DilationWorld:
                 cuts.add(4 + ln)
         if mode == "frames+mid" and n > 1:
             cuts.add(max(1, min(cuts) // 2))
-        return sorted(cuts)
+        # largest first: the default schedule delivers everything that is pending, finer cuts are deviations
+        return sorted(cuts, reverse=True)
 
     def _op_enabled(self, s, op):
         g = self.cfg.get("op_guard")
@@ -319,8 +324,10 @@ class DilationWorld:
             self.lose_left -= 1
             link = self.net.links[ev[1]]
             link.broken = True
-            CTX.client = self._owner_tag(link, ev[2])
-            self._guard("connectionLost", close_end, link, ev[2], error.ConnectionLost())
+            for side in ((0, 1) if ev[2] == 2 else (ev[2],)):
+                if not link.ends[side].transport.closed:
+                    CTX.client = self._owner_tag(link, side)
+                    self._guard("connectionLost", close_end, link, side, error.ConnectionLost())
         elif k == "timer":
             t = min(s.reactor.calls[0].getTime() - s.reactor.seconds() for s in self.sides if s.reactor.calls)
             self.now += t
